@@ -1,11 +1,5 @@
 From Coq Require Import String List Bool.
 From Errdef Require Import Base.Str Base.Outcome Model.Core Model.Convert Model.Unmarshal Gen.UnmarshalSrc Model.UnmarshalGen.
 
-Lemma g_resolve_kind_u_ref c k : g_resolve_kind_u c k = resolve_kind_u c k.
-Proof.
-  unfold g_resolve_kind_u, resolve_kind_u. cbn [rk_interp resolve_kind_tree]. unfold strict_lookup.
-  destruct (u_default c); [destruct (u_strict c)|]; reflexivity.
-Qed.
-
 Lemma unmarshal_source_shape : unmarshal_source_ok = true.
 Proof. reflexivity. Qed.
